@@ -135,7 +135,8 @@ class C11(e2.ProgenProp):
     def features(self, case, failure):
         if case.get("runtime"):
             return {"finding": self._runtime_finding(case["case"], case["kinds"][0])}
-        return {"finding": None}
+        from .. import e2 as _e2
+        return {"finding": None, "nostl_either": _e2.nostl_either_class({"cfg": case.get("cfg"), "case": case.get("case") or {"stages": []}})}
 
     def replay_external(self, case):
         if not case.get("runtime"):
